@@ -58,6 +58,9 @@ Proof.
     unfold struct_ids. rewrite ids_auto_from by assumption. apply map_ext. intros. lia.
 Qed.
 
+Definition clash_h_mut : shead := mkS "Reset" None Mutable false false.
+Definition mk_id (n : string) (i : option Z) : mhead := mkM n i false false false false None None.
+
 (* position-wise reading of the id rule *)
 Lemma nth_ids_from : forall h ms idx next k m,
   nth_error ms k = Some m ->
@@ -120,6 +123,38 @@ Proof.
   intros h ms k m Hx Hk Hh. destruct (nth_ids_from h ms 0 0 k m Hk) as [nx E].
   unfold struct_ids. rewrite E, Hh. destruct (s_ext h); try reflexivity. congruence.
 Qed.
+
+(* the sequential rule of a Mutable structure: an un-annotated member that follows an
+   un-hashed member gets that member's id + 1, whatever ids were handed out earlier
+   (the counter is NOT monotonic: a lower explicit id resets it) *)
+Lemma ids_auto_previous_plus_one_from : forall h ms idx next k m0 m,
+  s_ext h = Mutable ->
+  nth_error ms k = Some m0 -> nth_error ms (S k) = Some m ->
+  m_hashid m0 = false -> m_hashid m = false -> m_id m = None ->
+  exists i, nth_error (struct_ids_from h idx next ms) k = Some i /\
+            nth_error (struct_ids_from h idx next ms) (S k) = Some (i + 1).
+Proof.
+  intros h. induction ms as [|a r IH]; intros idx next k m0 m Hx H0 H1 Hh0 Hh Hid; [destruct k; discriminate|].
+  destruct k as [|k].
+  - cbn [nth_error] in H0, H1. injection H0 as ->. destruct r as [|b r]; [discriminate|]. cbn [nth_error] in H1. injection H1 as ->.
+    cbn [struct_ids_from nth_error]. rewrite Hh0, Hh, Hx, Hid. eexists. split; reflexivity.
+  - cbn [nth_error] in H0. cbn [struct_ids_from]. change (nth_error (?x :: ?l) (S (S k))) with (nth_error l (S k)).
+    change (nth_error (?x :: ?l) (S k)) with (nth_error l k).
+    eapply IH; eassumption.
+Qed.
+
+Lemma ids_auto_previous_plus_one : forall h ms k m0 m,
+  s_ext h = Mutable ->
+  nth_error ms k = Some m0 -> nth_error ms (S k) = Some m ->
+  m_hashid m0 = false -> m_hashid m = false -> m_id m = None ->
+  exists i, nth_error (struct_ids h ms) k = Some i /\ nth_error (struct_ids h ms) (S k) = Some (i + 1).
+Proof. intros. eapply ids_auto_previous_plus_one_from; eassumption. Qed.
+
+(* {#[id=10] a, b, #[id=5] c, d, e}: the lower explicit id 5 resets the counter *)
+Lemma ids_reset_example :
+  struct_ids clash_h_mut [mk_id "a" (Some 10); mk_id "b" None; mk_id "c" (Some 5); mk_id "d" None; mk_id "e" None]
+  = [10; 11; 5; 6; 7].
+Proof. reflexivity. Qed.
 
 (* ascending explicit ids: every un-hashed id is >= the counter, the list is strictly increasing *)
 Lemma ids_ascending_lower : forall h ms idx next,
